@@ -1,6 +1,9 @@
-package c34_test
+package verifc34_test
 
 // C34: pick_first (balancer/pickfirst) driven through its registered builder
+// (black-box; this virtual package lives below balancer/pickfirst only so that
+// it may replace the random hooks of balancer/pickfirst/internal by
+// plan-driven deterministic ones)
 // with a recording ClientConn and the fake addrConn automaton (fakecc), one
 // synctest bubble per case (happy-eyeballs timer = virtual time).
 //
@@ -30,6 +33,7 @@ import (
 
 	"google.golang.org/grpc/balancer"
 	"google.golang.org/grpc/balancer/pickfirst"
+	pfinternal "google.golang.org/grpc/balancer/pickfirst/internal"
 	"google.golang.org/grpc/connectivity"
 	"google.golang.org/grpc/internal/verifkit/fakecc"
 	"google.golang.org/grpc/internal/verifkit/vk"
@@ -64,6 +68,7 @@ type op struct {
 	Addrs   []int `json:"addrs,omitempty"`  // pool indices (update)
 	Groups  []int `json:"groups,omitempty"` // endpoint sizes; empty = use the Addresses field
 	Shuffle bool  `json:"shuffle,omitempty"`
+	Keys    []int `json:"keys,omitempty"` // shuffle keys (one per address), 0..999
 	Health  bool  `json:"health,omitempty"`
 }
 
@@ -75,11 +80,14 @@ type plan struct {
 func genPlan(rt *rapid.T) plan {
 	p := plan{QueuedAfterShutdown: fakecc.Weighted(rt, "queued", 60, 30, 10)}
 	n := 3 + fakecc.Uniform(rt, "n", vk.Pick(28, 248))
+	if n < 14 && fakecc.Uniform(rt, "short", 6) > 0 {
+		n += 14
+	}
 	// per-case profile: how likely a connection attempt fails
-	failBias := []int{35, 60, 85}[fakecc.Uniform(rt, "failbias", 3)]
+	failBias := []int{55, 82, 96}[fakecc.Uniform(rt, "failbias", 3)]
 	health := fakecc.Uniform(rt, "health", 4) == 0
 	for i := 0; i < n; i++ {
-		k := fakecc.Weighted(rt, "kind", 58, 10, 14, 5, 3, 5, 5)
+		k := fakecc.Weighted(rt, "kind", 64, 6, 13, 5, 3, 4, 5)
 		if i == 0 && fakecc.Uniform(rt, "first", 10) > 0 {
 			k = 1
 		}
@@ -100,8 +108,8 @@ func genPlan(rt *rapid.T) plan {
 			}
 		case 1:
 			o.K = opUpdate
-			m := fakecc.Weighted(rt, "naddr", 4, 8, 14, 22, 20, 14, 10, 8) // 0..7 addresses
-			sub := 2 + fakecc.Uniform(rt, "sub", len(pool)-1)
+			m := fakecc.Weighted(rt, "naddr", 4, 6, 10, 24, 22, 16, 10, 8) // 0..7 addresses
+			sub := 3 + fakecc.Uniform(rt, "sub", len(pool)-2)
 			off := fakecc.Uniform(rt, "off", len(pool))
 			for j := 0; j < m; j++ {
 				o.Addrs = append(o.Addrs, (off+fakecc.Uniform(rt, "addr", sub)*4)%len(pool))
@@ -117,7 +125,12 @@ func genPlan(rt *rapid.T) plan {
 					left -= g
 				}
 			}
-			o.Shuffle = fakecc.Uniform(rt, "shuffle", 5) == 0
+			o.Shuffle = fakecc.Uniform(rt, "shuffle", 4) == 0
+			if o.Shuffle {
+				for j := 0; j < m; j++ {
+					o.Keys = append(o.Keys, fakecc.Uniform(rt, "key", 1000))
+				}
+			}
 			o.Health = health
 		case 2:
 			o.K = opAdvance
@@ -171,9 +184,10 @@ func refProcess(in []int) []int {
 }
 
 type model struct {
-	L        []string       // current list in reference order (order unknown if shuffled)
-	idx      map[string]int // address -> position in L
-	shuffled bool
+	L   []string       // current list in reference order
+	idx map[string]int // address -> position in L
+
+	skipOK map[string]bool // address may be passed over in this pass (reused subchannel was CONNECTING / in TF)
 
 	passActive bool
 	lastIdx    int
@@ -212,9 +226,15 @@ func (m *model) startPass() {
 	m.lastIdx = -1
 	m.connected = map[string]bool{}
 	m.failed = map[string]bool{}
-	for _, a := range m.L {
-		if sc := m.liveByAddr[a]; sc != nil && m.state[sc] == connectivity.TransientFailure {
-			m.failed[a] = true
+	m.skipOK = map[string]bool{}
+	for a := range m.idx {
+		if sc := m.liveByAddr[a]; sc != nil {
+			if m.state[sc] == connectivity.TransientFailure {
+				m.failed[a] = true
+			}
+			if m.state[sc] == connectivity.TransientFailure || m.state[sc] == connectivity.Connecting {
+				m.skipOK[a] = true
+			}
 		}
 	}
 }
@@ -278,15 +298,18 @@ func (m *model) walk(e fakecc.Entry, inTimerOp bool) {
 			m.bad("%v: second Connect() for address %q within one pass (list %v)", e, a, m.L)
 			return
 		}
-		if !m.shuffled {
+		{
 			if i <= m.lastIdx {
 				m.bad("%v: Connect() for %q (position %d) after position %d was already attempted: out of order for list %v", e, a, i, m.lastIdx, m.L)
 				return
 			}
 			for j := m.lastIdx + 1; j < i; j++ {
-				sc := m.liveByAddr[m.L[j]]
-				if sc == nil || (m.state[sc] != connectivity.TransientFailure && m.state[sc] != connectivity.Connecting) {
-					m.bad("%v: Connect() for %q (position %d) skipped %q (position %d) whose subchannel is %v/%v; list %v", e, a, i, m.L[j], j, sc, m.state[sc], m.L)
+				// An address may be passed over only if it has a subchannel that was
+				// CONNECTING or in TRANSIENT_FAILURE at some point of this pass
+				// before being attempted (the moment of passing over is not
+				// observable, so this is the weakest sound condition).
+				if sc := m.liveByAddr[m.L[j]]; sc == nil || !m.skipOK[m.L[j]] {
+					m.bad("%v: Connect() for %q (position %d) skipped %q (position %d) whose subchannel is %v/%v and was never CONNECTING/TRANSIENT_FAILURE in this pass; list %v", e, a, i, m.L[j], j, sc, m.state[sc], m.L)
 					return
 				}
 				m.skipsJustifed++
@@ -311,10 +334,15 @@ func (m *model) walk(e fakecc.Entry, inTimerOp bool) {
 			if m.passActive {
 				if _, ok := m.idx[a]; ok && m.liveByAddr[a] == e.SC {
 					m.failed[a] = true
-					if !m.shuffled && m.idx[a] != m.lastIdx {
+					m.skipOK[a] = true
+					if m.idx[a] != m.lastIdx {
 						m.outOfTurnTF++
 					}
 				}
+			}
+		case connectivity.Connecting:
+			if m.passActive && m.liveByAddr[a] == e.SC && !m.connected[a] {
+				m.skipOK[a] = true
 			}
 		case connectivity.Ready:
 			m.ready, m.passActive, m.sticky, m.healthOK = e.SC, false, false, false
@@ -384,9 +412,11 @@ func runInBubble(p plan) (res vk.Result) {
 	cc := fakecc.New("c34")
 	cc.QueuedAfterShutdown = p.QueuedAfterShutdown
 	pf := balancer.Get(pickfirst.Name).Build(cc, balancer.BuildOptions{})
+	origFloat, origShuffle := pfinternal.RandFloat64, pfinternal.RandShuffle
 	defer func() {
 		pf.Close()
 		synctest.Wait()
+		pfinternal.RandFloat64, pfinternal.RandShuffle = origFloat, origShuffle
 	}()
 	m := &model{idx: map[string]int{}, state: map[*fakecc.SubConn]connectivity.State{}, shut: map[*fakecc.SubConn]bool{},
 		liveByAddr: map[string]*fakecc.SubConn{}, bornSticky: map[*fakecc.SubConn]bool{}}
@@ -427,11 +457,11 @@ func runInBubble(p plan) (res vk.Result) {
 				}
 				ccs.BalancerConfig = c
 			}
-			// model
+			// model, part 1 (order-independent): membership, keep-READY, pass start.
 			ref := refProcess(flat)
 			if len(ref) == 0 {
 				emptyUpdates++
-				m.L, m.idx, m.passActive, m.sticky, m.shuffled = nil, map[string]int{}, false, false, false
+				m.L, m.idx, m.passActive, m.sticky = nil, map[string]int{}, false, false
 			} else {
 				fams := map[int]bool{}
 				for _, x := range ref {
@@ -441,13 +471,8 @@ func runInBubble(p plan) (res vk.Result) {
 					maxAddrs, maxFams = max(maxAddrs, len(ref)), max(maxFams, len(fams))
 				}
 				m.L, m.idx = nil, map[string]int{}
-				for j, x := range ref {
-					m.L = append(m.L, pool[x].addr)
-					m.idx[pool[x].addr] = j
-				}
-				m.shuffled = o.Shuffle && len(ref) > 1
-				if m.shuffled {
-					shuffles++
+				for _, x := range ref {
+					m.idx[pool[x].addr] = -1
 				}
 				m.healthEnabled = o.Health
 				if o.Health {
@@ -468,14 +493,93 @@ func runInBubble(p plan) (res vk.Result) {
 					m.startPass()
 				}
 			}
+			// plan-driven replacements for pick_first's random hooks.
+			floatCalls, shuffleCalls := 0, 0
+			pfinternal.RandFloat64 = func() float64 {
+				i := floatCalls
+				floatCalls++
+				return float64(o.Keys[i%len(o.Keys)]*16+i%16) / 16000.0
+			}
+			fisherYates := func(n int, swap func(i, j int)) {
+				for i := n - 1; i > 0; i-- {
+					swap(i, o.Keys[i%len(o.Keys)]%(i+1))
+				}
+			}
+			pfinternal.RandShuffle = func(n int, swap func(i, j int)) {
+				shuffleCalls++
+				fisherYates(n, swap)
+			}
 			err := pf.UpdateClientConnState(ccs)
 			if (len(ref) == 0) != errors.Is(err, balancer.ErrBadResolverState) {
 				return vk.Bad("%s: UpdateClientConnState returned %v for %d addresses", desc, err, len(ref))
+			}
+			// model, part 2: the expected order, applying the same permutation
+			// the hooks handed to pick_first (endpoints are permuted as units).
+			if len(ref) > 0 {
+				groups := o.Groups
+				if len(groups) == 0 {
+					groups = make([]int, len(o.Addrs))
+					for j := range groups {
+						groups[j] = 1
+					}
+				}
+				var units [][]int
+				k := 0
+				for _, g := range groups {
+					units = append(units, o.Addrs[k:k+g])
+					k += g
+				}
+				if o.Shuffle {
+					shuffles++
+					switch {
+					case floatCalls > 0: // weighted shuffling: sort by descending key
+						if floatCalls != len(units) || shuffleCalls != 0 {
+							return vk.Bad("%s: harness: RandFloat64 called %d times for %d endpoints (RandShuffle %d)", desc, floatCalls, len(units), shuffleCalls)
+						}
+						keys := make([]int, len(units))
+						for j := range units {
+							keys[j] = o.Keys[j%len(o.Keys)]*16 + j%16
+						}
+						for x := 1; x < len(units); x++ { // insertion sort, keys are distinct
+							for y := x; y > 0 && keys[y] > keys[y-1]; y-- {
+								keys[y], keys[y-1] = keys[y-1], keys[y]
+								units[y], units[y-1] = units[y-1], units[y]
+							}
+						}
+					case shuffleCalls == 1:
+						fisherYates(len(units), func(i, j int) { units[i], units[j] = units[j], units[i] })
+					default:
+						return vk.Bad("%s: shuffleAddressList set but no random hook was used (float %d shuffle %d)", desc, floatCalls, shuffleCalls)
+					}
+				} else if floatCalls+shuffleCalls != 0 {
+					return vk.Bad("%s: address list shuffled although shuffleAddressList is off", desc)
+				}
+				var permuted []int
+				for _, u := range units {
+					permuted = append(permuted, u...)
+				}
+				for j, x := range refProcess(permuted) {
+					m.L = append(m.L, pool[x].addr)
+					m.idx[pool[x].addr] = j
+				}
 			}
 		case opDeliver:
 			d := connectivityDeliverable(cc)
 			if len(d) == 0 {
 				continue
+			}
+			// mostly drive live subchannels; SHUTDOWN confirmations of shut-down
+			// ones are delivered now and then.
+			if o.A%8 != 0 {
+				var liveD []*fakecc.SubConn
+				for _, sc := range d {
+					if !sc.ShutdownCalled() {
+						liveD = append(liveD, sc)
+					}
+				}
+				if len(liveD) > 0 {
+					d = liveD
+				}
 			}
 			sc := d[o.A%len(d)]
 			en := sc.Enabled()
@@ -566,7 +670,7 @@ func runInBubble(p plan) (res vk.Result) {
 	cl(m.skipsJustifed > 0, "reused_subconn_skipped")
 	cl(m.outOfTurnTF > 0, "out_of_turn_tf")
 	cl(m.timerConnects > 0, "happy_eyeballs_timer_connect")
-	cl(shuffles > 0, "shuffle")
+	cl(shuffles > 0, "shuffle_with_known_permutation")
 	cl(healthCases > 0, "health_listener")
 	cl(keptReady > 0, "update_kept_ready_subconn")
 	cl(emptyUpdates > 0, "empty_update")
@@ -600,7 +704,7 @@ func pfParser() balancer.ConfigParser { return balancer.Get(pickfirst.Name).(bal
 func TestVerifC34PickFirst(t *testing.T) {
 	vk.Check(t, vk.Unit[plan]{
 		ID: "C34", Name: "pickfirst",
-		Rule: "op lists (<=30/<=250) over pick_first in a bubble: resolver updates with 0..7 addresses from a 9-address pool (IPv4, IPv4-mapped, IPv6, unparsable; duplicates; as Addresses or grouped into Endpoints; shuffle 20%; health listener in 25% of cases), subchannel events from the fake addrConn automaton (per-case failure bias 35/60/85%, CONNECTING->IDLE 4%, 0..2 updates queued after Shutdown), virtual-time advances (250ms/100ms/1s), health updates, ResolverError, ExitIdle, picks. non-trivial = some update had >=3 distinct addresses of >=2 families and >=1 pass failed completely",
+		Rule: "op lists (<=30/<=250) over pick_first in a bubble: resolver updates with 0..7 addresses from a 9-address pool (IPv4, IPv4-mapped, IPv6, unparsable; duplicates; as Addresses or grouped into Endpoints; shuffle 25% with a plan-driven permutation injected through the package's random hooks; health listener in 25% of cases), subchannel events from the fake addrConn automaton (per-case failure bias 55/82/96%, CONNECTING->IDLE 4%, 0..2 updates queued after Shutdown), virtual-time advances (250ms/100ms/1s), health updates, ResolverError, ExitIdle, picks. non-trivial = some update had >=3 distinct addresses of >=2 families and >=1 pass failed completely",
 		Gen:  genPlan, Run: run,
 	})
 }
